@@ -41,8 +41,10 @@ TEXT = {
          "pass; a node defers itself only at the depth cap (>= 1024) or when its stamp is too recent. The numeric bound on "
          "epoch advances is a runtime quantity and is not decided.", "4.7, 5/C06"),
  "C07": ("Decides: the only recursion reachable from dispose is capped by a constant guard dominating a call with strictly "
-         "increasing depth; compares CAP x minimal frame with the smallest legal stack. Absence of overflow for a concrete "
-         "stack is not decidable statically here; F7 is a known finding.", "4.7, 5/C07"),
+         "increasing depth (callee- or caller-side bound); compares CAP x minimal frame with the smallest legal stack; and "
+         "collections never nest (Global::collect only from the loop of Local::unpin behind the `collecting` flag that unpin "
+         "alone writes), so recursion cannot restart at depth 0 through a deferred destructor. Absence of overflow for a "
+         "concrete stack is not decidable statically here; F7 is a known finding.", "4.7, 5/C07"),
  "C08": ("Decides exact strong-share transfer on every path of every AtomicRc method (ledger), provenance of what is returned, "
          "that epoch bits never surface as failure (ptr_eq retry, sibling-checked), that every shared write is stamped, "
          "that take needs &mut and links/raw moves are private (witnesses). Linearizability of histories is not decided.",
@@ -92,7 +94,7 @@ TECH = {
  "C02": "compile_fail witnesses + pinned-read dataflow + stamp dependence rules over MIR paths",
  "C05": "interprocedural must-precede (DESTRUCTED CAS gates destruct events) + compile_fail witnesses",
  "C06": "call-graph/handoff-kind rule over MIR paths (direct recursion vs deferral)",
- "C07": "call-graph SCC + dominating depth-guard rule",
+ "C07": "call-graph SCC + dominating depth-guard rule + who-may-call/re-entrancy-flag rule for collect",
  "C08": "ownership ledger + provenance + sibling CAS-loop cross-check + compile_fail witnesses",
  "C13": "ordering/gating rules over MIR paths of pin/try_advance/collect (must-pass-through, who-may-call)",
  "C15": "linearity (trait impls, forget sites) + path rules over defer/finalize/Deferred::new/queue pops",
